@@ -136,6 +136,39 @@ pub fn run(tier: Tier) -> i32 {
         let a = alphabet(l, n);
         alphas.push(json!({"lang": l.code(), "alphabet": a}));
         total.merge(explore::all_sequences2(&a, k, |syms, acc| one_text(&ctx, acc, l, &lang, syms)));
+        if tier == Tier::Thorough {
+            // the quick tier's wider alphabet at its depth (the deep stage above uses a narrower one)
+            let aq = alphabet(l, 15);
+            total.merge(explore::all_sequences2(&aq, 4, |syms, acc| {
+                if syms.iter().any(|s| !a.iter().any(|x| x == s)) {
+                    one_text(&ctx, acc, l, &lang, syms)
+                }
+            }));
+        }
+        // sentence ends and multi-word expressions: a word with a glued full stop, the ambiguity words and
+        // the parts of the interpreter's two-word linking entries
+        let c = vocab::cls(l);
+        let mut b: Vec<String> = vec![c.one.clone(), c.unit.clone(), c.ordinary.clone(), "plugh.".to_string(), c.linking.clone()];
+        match l {
+            L::En => b.push("o".into()),
+            L::Fr => b.extend(["neuf", "un", "le"].iter().map(|x| x.to_string())),
+            _ => {}
+        }
+        for e in vocab::linking_words(l) {
+            if e.contains(' ') {
+                for w in e.split(' ') {
+                    b.push(w.to_string());
+                }
+            }
+        }
+        let mut b2: Vec<String> = vec![];
+        for w in b {
+            if !b2.contains(&w) {
+                b2.push(w);
+            }
+        }
+        alphas.push(json!({"lang": l.code(), "sentence_and_expression_alphabet": b2}));
+        total.merge(explore::all_sequences2(&b2, 4, |syms, acc| one_text(&ctx, acc, l, &lang, syms)));
         total.sample(json!({"lang": l.code(), "text": format!("{}\u{a0}{}\t{}", a[1], a[0], a[2])}));
     }
     let cov = json!({
